@@ -24,7 +24,8 @@
   the non-transposition, non-pivot steps for `gra`/`cog`/`net`/`con` (C10Graphic.lean).
   the GF(2) pivot for `spb` and the GF(3) pivot for `spt` (C10SPPivot.lean).
   the GF(2) pivot for `gra` and the GF(3) pivot for `net` (C10GraphicPivot.lean).
-  Not covered: the GF(2) pivot for `cog`, the GF(3) pivot for `con`, the class `cam`,
+  the GF(2) pivot for `cog` and the GF(3) pivot for `con` (C10CographicPivot.lean).
+  Not covered: the class `cam`,
   sums for classes other than `tu`, `reg` (C10Sums.lean), `gra` and `net` (C10GraphicSums.lean), `spb` and `spt` (C10SPSums.lean).
 -/
 import CmrProofs.Lemmas.RelLemmas
